@@ -112,8 +112,8 @@ def run(ctx):
         for f in fs:
             ctx.fail(f, shrink)
     # large bases
-    pairs_files = rel.shipped_pairs(ctx.rng, 12 if quick else 160, max_atoms=30 if quick else 60)
-    m, cap = (6, 5) if quick else (20, 20)
+    pairs_files = rel.shipped_pairs(ctx.rng, 12 if quick else 80, max_atoms=30 if quick else 40)
+    m, cap = (6, 5) if quick else (10, 8)
     jobs = []
     for kb, q in pairs_files:
         weakly = ctx.rng.random() < 0.3
